@@ -8,7 +8,7 @@ import scipy.sparse as sps
 
 from .core import sub_rng
 
-TEMPLATES = ["T1", "T1", "T1", "T2", "T3", "T4", "T5", "T6", "T7"]
+TEMPLATES = ["T1", "T1", "T2", "T3", "T4", "T4", "T5", "T6", "T7"]
 _H = {}
 
 
@@ -84,7 +84,7 @@ def gen_cfg(rng, template=None):
                solver=str(rng.choice(["auto", "auto", "splu", "cg_jacobi", "cg_sor", "cg_ilu", "cg_gmg", "dense_auto", "dense_lu", "dense_ldl"])),
                lda=bool(rng.random() < 0.8), dep_tol=float(rng.choice([1e-5, 1e-7, 1e-9])), nload=int(rng.choice([1, 1, 2, 3])),
                print_timing=[False, False, True, 0.0][int(rng.integers(0, 4))], keep_alloc=bool(rng.random() < 0.2),
-               nmodes=int(rng.integers(1, 4)), sigma=[None, None, -0.05][int(rng.integers(0, 3))], seedQ=bool(rng.random() < 0.5),
+               nmodes=int(rng.choice([1, 2, 3, 3])), sigma=[None, None, -0.05][int(rng.integers(0, 3))], seedQ=bool(rng.random() < 0.7),
                agg=str(rng.choice(["PNorm", "KSFunction", "SoftMinMax"])), aggpar=float(rng.choice([4.0, 8.0, -6.0])),
                active=bool(rng.random() < 0.4), scaling=bool(rng.random() < 0.6), p=float(rng.choice([1.0, 3.0])),
                omega=float(rng.choice([0.1, 0.3])), oseed=int(rng.integers(1 << 30)))
